@@ -176,10 +176,16 @@ class Stage:
 
     def set_t0(self, t0):
         self._set_transcribed(False)
+        if isinstance(t0, FreeTime):
+            # The new declaration brings its own guess: forget a guess recorded for the previous one
+            self._initial.pop(self.t0, None)
         self._t0 = t0
 
     def set_T(self, T):
         self._set_transcribed(False)
+        if isinstance(T, FreeTime):
+            # The new declaration brings its own guess: forget a guess recorded for the previous one
+            self._initial.pop(self.T, None)
         self._T = T
 
     def _param_value(self, p):
